@@ -1,0 +1,9 @@
+//go:build verif
+
+package hashset
+
+// VerifNewSafe builds a SetSafe for the verification harness: the package exports the SetSafe type
+// but no constructor for it (its only field is unexported).
+func VerifNewSafe[E comparable](values ...E) *SetSafe[E] {
+	return &SetSafe[E]{unsafe: New[E](values...)}
+}
